@@ -1149,6 +1149,14 @@ func runSmall(sc *Scenario, res *core.Result, logf func(string, ...any)) {
 			res.Fail("P4", "short-reads-change-result", "%s gave %q (err %q) with short reads and %q (err %q) without", sc.Kind, run.out, run.err, ref.out, ref.err)
 			return
 		}
+	} else if sc.Kind == "readrr" && ref.err == "" {
+		// a failing reader may cost ReadRR the record, but what it returns without an
+		// error is the record that is there, not a shortened one
+		res.Bump("oracle.P3_fault_reported")
+		if run.err == "" && run.out != ref.out {
+			res.Fail("P3", "io-error-swallowed", "ReadRR returned %q and no error although reading failed; the text holds %q", run.out, ref.out)
+			return
+		}
 	} else if sc.Kind == "privkey" && ref.err == "" {
 		// the key file is read to the end: a read error must surface
 		res.Bump("oracle.P3_fault_reported")
